@@ -5,6 +5,8 @@ package routing
 // Contracts for the verifier in /verif (comment-only file; no declarations).
 
 //@ func muskingum(inflows, laterals, s, prevInflow, prevOutflow, k, x, deltaT, outflows) returns (rs, rIn, rOut)
+//@   kernel
+//@   states s, prevInflow, prevOutflow
 //@   noalias
 //@   safety C11
 //@   requires inflows.len == laterals.len && inflows.len == outflows.len
@@ -21,6 +23,8 @@ package routing
 // when the working volume is below MINIMUM_VOLUME (0.01)
 
 //@ func LumpedConstituentTransport(inflowLoads, lateralLoads, outflows, storage, initialStoredMass, x, pointInput, deltaT, outflowLoads, pointSourceLoad) returns (rStored)
+//@   kernel
+//@   states initialStoredMass
 //@   noalias
 //@   nullable lateralLoads, pointSourceLoad
 //@   safety C12
@@ -40,6 +44,8 @@ package routing
 // ---- C12: constituent decay ----
 
 //@ func constituentDecay(inflowLoads, lateralLoads, inflows, outflows, storage, storedMass, x, halflife, deltaT, decayedLoad, outflowLoads) returns (rStored)
+//@   kernel
+//@   states storedMass
 //@   noalias
 //@   safety C12
 //@   requires inflowLoads.len == lateralLoads.len && inflowLoads.len == outflows.len && inflowLoads.len == storage.len && inflowLoads.len == outflowLoads.len && inflowLoads.len == decayedLoad.len
@@ -58,6 +64,8 @@ package routing
 // ---- C12: in-stream coarse sediment: everything is deposited in the channel store ----
 
 //@ func instreamCoarseSediment(upstreamMass, lateralMass, reachLocalMass, channelStore, storedMass, deltaT, loadDownstream) returns (rChannel, rStored)
+//@   kernel
+//@   states channelStore, storedMass
 //@   noalias
 //@   safety C12
 //@   requires upstreamMass.len == lateralMass.len && upstreamMass.len == reachLocalMass.len && upstreamMass.len == loadDownstream.len
@@ -76,6 +84,9 @@ package routing
 //@ spec fineMaxStorage(propBankHeightForFineDep real, bankHeight real, linkWidth real, linkLength real, sedBulkDensity real) real = propBankHeightForFineDep * bankHeight * (linkWidth * linkLength) * sedBulkDensity * 1000.0
 
 //@ func instreamFineSediment(upstreamMass, lateralMass, reachLocalMass, reachVolume, outflow, channelStoreFine, totalStoredMass, bankFullFlow, fineSedSettVelocityFlood, floodPlainArea, linkWidth, linkLength, linkSlope, bankHeight, propBankHeightForFineDep, sedBulkDensity, manningsN, fineSedSettVelocity, fineSedReMobVelocity, durationInSeconds, loadDownstream, loadToFloodplain, loadToChannelDeposition, floodplainDepositionFraction, channelDepositionFraction) returns (rChannel, rStored)
+//@   kernel
+//@   states channelStoreFine, totalStoredMass
+//@   carries-normalised channelStoreFine
 //@   noalias
 //@   safety C12
 //@   requires bankFullFlow > 0.00000001
@@ -97,6 +108,8 @@ package routing
 // ---- C12: in-stream particulate nutrient ----
 
 //@ func instreamParticulateNutrient(incomingMassUpstream, incomingMassLateral, reachVolume, outflow, streamBankErosion, lateralSediment, floodplainDepositionFraction, channelDepositionFraction, initialInstreamStoredMass, initialChannelStoredMass, particulateNutrientConcentration, soilPercentFine, durationInSeconds, loadDeposited, loadFromStreambank, loadDownstream, loadToFloodplain) returns (rInstream, rChannel)
+//@   kernel
+//@   states initialInstreamStoredMass, initialChannelStoredMass
 //@   noalias
 //@   safety C12
 //@   requires incomingMassLateral.len == incomingMassUpstream.len && reachVolume.len == incomingMassUpstream.len && outflow.len == incomingMassUpstream.len && streamBankErosion.len == incomingMassUpstream.len && lateralSediment.len == incomingMassUpstream.len && floodplainDepositionFraction.len == incomingMassUpstream.len && channelDepositionFraction.len == incomingMassUpstream.len
@@ -117,6 +130,8 @@ package routing
 // returned buffer holds C[n .. n+L).
 
 //@ func lag(inflow, lagged, timeLag, outflow) returns (r)
+//@   kernel causal-by-ensures
+//@   states lagged
 //@   noalias
 //@   safety C11
 //@   requires timeLag >= 0 && len(lagged) == int(timeLag) && inflow.len == outflow.len
@@ -165,6 +180,8 @@ package routing
 //@   ensures [C11.sr-law] implies(outflow > 0 && qi > 0 && storage > lateral*duration, storage == routingConstant*pow(qi, routingPower) + deadStorage)
 
 //@ func storageRouting(inflows, laterals, rainfall, evap, s, prevInflow, prevOutflow, bias, k, x, area, deadStorage, deltaT, outflows, storages) returns (rS, rIn, rOut)
+//@   kernel
+//@   states s, prevInflow, prevOutflow
 //@   noalias
 //@   safety C11
 //@   panics allowed
@@ -178,3 +195,9 @@ package routing
 //@   loop 0 step [C11.sr-step-nonneg] outflows.at(i) >= 0 && storages.at(i) >= 0
 //@   loop 0 step [C11.sr-step-balance] storages.at(i) + outflows.at(i)*deltaT == srNewStorage(pre(storage), inflows.at(i), laterals.at(i), srEvapFlux(pre(storage)/deltaT + inflows.at(i), area, (evap.at(i) - rainfall.at(i))/deltaT), deltaT)
 //@   loop 0 step [C11.sr-step-carry] post(storage) == storages.at(i) && post(outflow) == outflows.at(i)
+
+// in-stream dissolved nutrient (decay): structural obligations only
+//@ func instreamDissolvedNutrient
+//@   structural only
+//@   kernel
+//@   states storedMass
